@@ -48,3 +48,82 @@ def check_map_one_iterable(xs: List[int], c: int) -> bool:
     got = list(_chain_from_iterable_of_lists(results))
     n_expected = (len(xs) + c - 1) // c
     return got == [(a,) for a in xs] and len(chunks) == n_expected
+
+
+class _SyncFuture:
+    def __init__(self, v):
+        self.v = v
+
+    def result(self, timeout=None):
+        return self.v
+
+    def cancel(self):
+        return False
+
+
+def _untraced(fn):
+    """Run fn() outside CrossHair's tracer (zero-argument super() inside the real map() does not survive
+    it: 'Cell is empty'); only concrete values may flow in."""
+    try:
+        from crosshair.tracers import NoTracing, is_tracing
+    except ImportError:
+        return fn()
+    if not is_tracing():
+        return fn()
+    with NoTracing():
+        return fn()
+
+
+def check_real_map(nx: int, ny: int, c: int, mw: int) -> bool:
+    """
+    pre: 0 <= nx <= 5 and 0 <= ny <= 5
+    pre: 1 <= c <= 6 and 1 <= mw <= 7
+    post: _
+    """
+    from .c04_contain import _conc
+    nx, ny, c, mw = _conc(nx, 5), _conc(ny, 5), _conc(c, 6), _conc(mw, 7)
+    xs, ys = list(range(nx)), [10 + i for i in range(ny)]
+    return _untraced(lambda: _real_map(xs, ys, c, mw))
+
+
+def _real_map(xs, ys, c, mw):
+    # the real ProcessPoolExecutor.map (and the concurrent.futures Executor.map it delegates to) on an
+    # executor object whose submit() runs the call synchronously: whatever map() does with chunksize,
+    # the iterables and max_workers, the outcome must be list(map(fn, xs, ys)) in order
+    from loky.process_executor import ProcessPoolExecutor
+    ex = ProcessPoolExecutor.__new__(ProcessPoolExecutor)
+    ex._max_workers = mw
+    submitted = []
+
+    def submit(fn, *args, **kwargs):
+        submitted.append(args)
+        return _SyncFuture(fn(*args, **kwargs))
+    ex.submit = submit
+    got = list(ex.map(_fn, xs, ys, chunksize=c))
+    if got != list(map(_fn, xs, ys)):
+        return False
+    n = min(len(xs), len(ys))
+    return len(submitted) == (n + c - 1) // c  # one task per chunk of (at most) chunksize items
+
+
+def check_real_map_bad_chunksize(n: int, c: int) -> bool:
+    """
+    pre: 0 <= n <= 2 and -2 <= c <= 0
+    post: _
+    """
+    from .c04_contain import _conc
+    n, c = _conc(n, 2), _conc(c + 2, 2) - 2
+    xs = list(range(n))
+    return _untraced(lambda: _bad_chunksize(xs, c))
+
+
+def _bad_chunksize(xs, c):
+    from loky.process_executor import ProcessPoolExecutor
+    ex = ProcessPoolExecutor.__new__(ProcessPoolExecutor)
+    ex._max_workers = 2
+    ex.submit = lambda fn, *a, **k: _SyncFuture(fn(*a, **k))
+    try:
+        list(ex.map(_fn, xs, xs, chunksize=c))
+    except ValueError:
+        return True
+    return False
